@@ -277,6 +277,57 @@ def arena_immut(repo, res, tier, rule="ARENA-IMMUT"):
         res.check(len(ch) >= 2, "CONTROL", "CONTROL:arena-immut", f"control: {len(ch)} in-place arena edits flagged ({sorted(set(c.split('::')[-1] for _, c, *_ in ch))})", "")
 
 
+def nullscan(repo, res, rule="NULLSCAN"):
+    """Dragon book 3.9: firstpos / lastpos / followpos of a concatenation scan the children and stop at the first child that is NOT
+    nullable -- the child whose positions were just taken.  Relational form: in every loop of the position-set functions that
+    leaves through `break` under `!X.nullable(..)`, X is the very node whose firstpos / lastpos (or recursive visit) the same loop
+    body takes; testing another node's nullability (the left neighbour's, the parent's) cuts the scan at the wrong child."""
+    n = 0
+    for q in ("regex::do_firstpos", "regex::do_lastpos", "regex::do_followpos"):
+        fn = repo.fn(q)
+        if fn is None:
+            res.undecided(rule, f"{rule}:{q}", "function not found")
+            continue
+        envs = A.collect_envs(fn)
+        pm = A.parent_map(fn.body)
+        for loop in A.walk(fn.body):
+            if loop["k"] not in ("ForLoop", "While", "Loop"):
+                continue
+            brs = []
+            for b in A.walk(loop["body"]):
+                if b["k"] != "Break":
+                    continue
+                gs = A.guards_of(b, pm, stop=loop)
+                if any(g[0]["k"] in ("ForLoop", "While", "Loop") for g in gs):
+                    continue  # belongs to an inner loop
+                brs.append((b, gs))
+            for b, gs in brs:
+                nul = None
+                for g, role in gs:
+                    if g["k"] == "If":
+                        for x in A.walk(g["cond"]):
+                            if x["k"] == "MethodCall" and x["method"] == "nullable":
+                                nul = (x, g, role)
+                if nul is None:
+                    continue
+                x, g, role = nul
+                c = g["cond"]
+                negated = c["k"] == "Unary" and c.get("op") == "!"
+                tested = A.resolve(x["recv"], envs.get(id(x)))
+                takers = []
+                for y in A.walk(loop["body"]):
+                    if y["k"] == "MethodCall" and y["method"] in ("firstpos", "lastpos"):
+                        takers.append(A.resolve(y["recv"], envs.get(id(y))))
+                    elif y["k"] == "Call" and y["func"]["k"] == "Path" and y["func"]["path"].split("::")[-1] == fn.name and y["args"]:
+                        takers.append(A.resolve(y["args"][0], envs.get(id(y))))
+                strip = lambda p: p[1] if p and p[0] in ("ref", "deref") else p
+                same = [t for t in takers if strip(t) == strip(tested)]
+                n += 1
+                ok = negated and role == "then" and bool(same)
+                res.check(ok, rule, f"{rule}:{q}:scan#{n}", f"scan leaves at the first non-nullable child: break under {'!' if negated else ''}{A.show(tested)[:70]}.nullable(); positions taken in the same pass from {[A.show(t)[:50] for t in takers][:3]}" + ("" if ok else " -- the node tested for nullability is not the node whose positions are taken (or the test is not negated)"), f"{fn.file}:{b['l']}")
+    return n
+
+
 C02_CORES = {"dfa::dfa_from_regex", "regex::do_firstpos", "regex::do_lastpos", "regex::do_followpos", "regex::RegexNode::nullable"}
 
 
@@ -294,6 +345,7 @@ def run(repo, res, tier):
     FC.fieldcover(repo, res, "dfa::Inp::get_fallback_level", "Inp", "fallback_level", "value")  # the `||` index of every kind of item is visible to the table builders
     levelfield(repo, res)
     core_skips(repo, res)
+    res.floor("NULLSCAN", nullscan(repo, res), 2)
     arena_immut(repo, res, tier)
     postorder(repo, res)
     n_tc = common.run_traversals(repo, res, flows=flows_table())
